@@ -53,6 +53,7 @@ type RealEnd struct {
 	Pool     *poolView
 	ReqSeen  *http.Request // server: the request as net/http (or the mini server) parsed it
 	Resp101  []byte
+	started  bool
 	done     chan struct{}
 }
 
@@ -95,9 +96,6 @@ func (rn *runner) pool(k int, end int) websocket.BufferPool {
 	if k == 0 {
 		return nil
 	}
-	if rn.pools[k] == nil {
-		rn.pools[k] = &simPool{}
-	}
 	return &poolView{p: rn.pools[k], end: end}
 }
 
@@ -107,6 +105,16 @@ func linkAddr(i int) string { return fmt.Sprintf("srv%d:80", i) }
 func (rn *runner) startLink(i int) {
 	l := &rn.scn.Links[i]
 	addr := linkAddr(i)
+	if l.Client != nil {
+		rn.newReal(i, false, l.Client)
+	} else {
+		rn.newPeer(i, false)
+	}
+	if l.Server != nil {
+		rn.newReal(i, true, l.Server)
+	} else {
+		rn.newPeer(i, true)
+	}
 	switch {
 	case l.Server != nil && l.Server.Server == "nethttp":
 		lis := rn.net.Listen(addr)
@@ -133,8 +141,7 @@ func (rn *runner) startLink(i int) {
 func (rn *runner) dialReal(i int, t *Task) {
 	l := &rn.scn.Links[i]
 	cfg := l.Client
-	end := &RealEnd{Link: i, Cfg: cfg}
-	rn.addReal(end)
+	end := rn.reals[i*2]
 	defer close(end.done)
 	var got *SimConn
 	d := websocket.Dialer{
@@ -243,8 +250,12 @@ func (rn *runner) miniServe(i int, c *SimConn) {
 func (rn *runner) upgrade(i int, w http.ResponseWriter, r *http.Request, sc *SimConn) {
 	l := &rn.scn.Links[i]
 	cfg := l.Server
-	end := &RealEnd{Link: i, IsServer: true, Cfg: cfg, ReqSeen: r}
-	rn.addReal(end)
+	end := rn.reals[i*2+1]
+	if end.started {
+		return // a second request on the same link (not generated)
+	}
+	end.started = true
+	end.ReqSeen = r
 	defer close(end.done)
 	u := websocket.Upgrader{
 		ReadBufferSize:    cfg.ReadBuf,
@@ -306,20 +317,24 @@ func offersDeflate(h http.Header) bool {
 	return false
 }
 
-// Each end is owned by one goroutine until it closes done (a real
-// happens-before edge); the oracle reads an end only after receiving from it.
-func (rn *runner) addReal(e *RealEnd) {
-	e.done = make(chan struct{})
-	k := e.Link * 2
-	if e.IsServer {
+// Ends are created by the root goroutine (startLink) before any other
+// goroutine exists; each is then owned by one goroutine until that goroutine
+// closes done (a real happens-before edge); the oracle reads an end only
+// after receiving from done.
+func (rn *runner) newReal(link int, server bool, cfg *EndCfg) *RealEnd {
+	e := &RealEnd{Link: link, IsServer: server, Cfg: cfg, done: make(chan struct{})}
+	k := link * 2
+	if server {
 		k++
 	}
 	rn.reals[k] = e
+	return e
 }
 
-func (rn *runner) addPeer(p *PeerEnd) {
-	p.done = make(chan struct{})
-	rn.peers[p.Link] = p
+func (rn *runner) newPeer(link int, server bool) *PeerEnd {
+	p := &PeerEnd{Link: link, IsServer: server, done: make(chan struct{})}
+	rn.peers[link] = p
+	return p
 }
 
 func isDone(ch chan struct{}) bool {
@@ -414,8 +429,8 @@ func readHead(c net.Conn) ([]byte, []byte, error) {
 
 func (rn *runner) scriptedServer(i int, c *SimConn) {
 	l := &rn.scn.Links[i]
-	p := &PeerEnd{Link: i, IsServer: true, Net: c}
-	rn.addPeer(p)
+	p := rn.peers[i]
+	p.Net = c
 	defer close(p.done)
 	head, _, err := readHead(c)
 	p.Request = head
@@ -448,8 +463,7 @@ func (rn *runner) scriptedServer(i int, c *SimConn) {
 
 func (rn *runner) scriptedClient(i int, t *Task) {
 	l := &rn.scn.Links[i]
-	p := &PeerEnd{Link: i}
-	rn.addPeer(p)
+	p := rn.peers[i]
 	defer close(p.done)
 	nc, err := rn.net.Dial(t, linkAddr(i))
 	if err != nil {
@@ -523,6 +537,9 @@ func (rn *runner) playScript(c *SimConn, l *Link, prefix []byte, segs []Seg, p *
 		if k == 0 && len(prefix) > 0 {
 			d = append(append([]byte{}, prefix...), d...)
 			prefix = nil
+		}
+		if s.WaitStep > 0 {
+			rn.sim.WaitStep(nil, s.WaitStep)
 		}
 		if !write(d) {
 			return
